@@ -27,6 +27,7 @@ CONSTANTS
   Depth = 0
   AttBound = 3
   ViewKeep = {}
+  RealBackoff = FALSE
   GenBFS = FALSE
   AckAll = TRUE
   Weights <- mcWeights
